@@ -1,6 +1,7 @@
 package updog
 
 import (
+	"errors"
 	"fmt"
 	"math/bits"
 	"sort"
@@ -31,6 +32,14 @@ func (idx *Index) Execute(q *Query) (*Result, error) {
 		}(time.Now())
 	}
 
+	if q == nil {
+		return nil, errors.New("invalid query: no query provided")
+	}
+
+	if err := validateExpr(q.Expr); err != nil {
+		return nil, err
+	}
+
 	idx.mtx.RLock()
 	defer idx.mtx.RUnlock()
 
@@ -48,6 +57,44 @@ func (idx *Index) Execute(q *Query) (*Result, error) {
 		Count:  result.GetCardinality(),
 		Groups: q.groupBy(result, idx, groupByFields),
 	}, nil
+}
+
+// validateExpr rejects incomplete expression trees (a missing expression, NOT without
+// operand, nil operands), which would otherwise be dereferenced during evaluation.
+func validateExpr(e Expression) error {
+	switch v := e.(type) {
+	case nil:
+		return errors.New("invalid query: expression is missing")
+	case *ExprEqual:
+		if v == nil {
+			return errors.New("invalid query: expression is missing")
+		}
+	case *ExprNot:
+		if v == nil {
+			return errors.New("invalid query: expression is missing")
+		}
+		return validateExpr(v.Expr)
+	case *ExprAnd:
+		if v == nil {
+			return errors.New("invalid query: expression is missing")
+		}
+		for _, ee := range v.Exprs {
+			if err := validateExpr(ee); err != nil {
+				return err
+			}
+		}
+	case *ExprOr:
+		if v == nil {
+			return errors.New("invalid query: expression is missing")
+		}
+		for _, ee := range v.Exprs {
+			if err := validateExpr(ee); err != nil {
+				return err
+			}
+		}
+	}
+
+	return nil
 }
 
 // Result contains the query result.
